@@ -15,7 +15,10 @@ Every generated session is run FOUR ways: {extracted model, real implementation}
        must differ there, each in its own class; the six screen_scheduler_test scenarios must agree.
   (iv) F9(e) (ticket marked after the handlers in GLib, before them in MainLoop): the GLib model with the
        counterfactual switch mark_first is run on every session; a session on which it changes the observable
-       would be a witness of (e).  None is known (see the report): the count is recorded in the evidence.
+       is a witness of (e) (they all involve close_loop() at level 0: the mark is skipped when the except clause of
+       _run_handlers itself raises); reported under the known key glib-mark-after-handlers, count in the evidence.
+  (v)  theorem C20_agree_partial: every session for which the extracted `in_fragment` answers true must show the same
+       outcomes and the same handler/mark sequence on the two REAL loops (key fragment-agreement otherwise).
 """
 import json, os, sys, copy, time, subprocess
 import lib, loop_impl, loop_gen, glib_impl, c20_gen
@@ -344,7 +347,9 @@ def replay(path):
     c2 = [max(c[0], fuel_for(i, g)), c[1], c[2]]
     mm = lib.model_run("loop", [c2])[0]
     mg = lib.model_run("gloop", [c2])[0]
+    fr = lib.model_run("gloopfrag", [c2])[0] == [1]
     oi, og = D.observable(c, i), D.observable(c, g)
+    print("in the fragment of C20_agree_partial: %s" % fr)
     print("outcomes  MainLoop impl/model: %s %s   GLib impl/model: %s %s" % (i[0], mm[0], g[0], mg[0]))
     print("model = implementation:  MainLoop %s   GLibEventLoop %s" % (i == mm, g == mg))
     print("observable MainLoop:", oi)
@@ -359,6 +364,6 @@ def replay(path):
         print(" MainLoop:"); [print("   ", l) for l in pretty(i[1])[max(0, jm - 12):jm + 4]]
         print(" GLib    :"); [print("   ", l) for l in pretty(g[1])[max(0, jg - 12):jg + 4]]
         rc = 1
-    if i != mm or g != mg:
+    if i != mm or g != mg or (fr and (oi != og or i[0] != g[0])):
         rc = 1
     return rc
